@@ -8,7 +8,7 @@ TEXT = {
  ),
  "C02": dict(
   technique="model-based property testing (rapid): generated relay scripts over loopback TCP vs. a two-FIFO-with-EOF reference model",
-  level_text="Generated scripts of sends and half-closes in both directions, with generated chunking, segmentation, pacing and address forms, run through the real StreamServe/StreamHandler over loopback TCP; the bytes and EOFs seen by the raw client (decrypted with an independent codec) and by the scripted target are compared with two FIFO byte streams with EOF markers.",
+  level_text="Generated scripts of sends and half-closes in both directions, with generated chunking, segmentation, pacing and address forms, run through the real StreamServe/StreamHandler over loopback TCP; the bytes and EOFs seen by the raw client (decrypted with an independent codec) and by the scripted target are compared with two FIFO byte streams with EOF markers. A second engine runs the real StreamHandler between in-memory conns under a synctest fake clock, with generated pauses of up to hours between sends and half-closes, against the same two-FIFO model.",
   level_note="Loopback only; scheduler/kernel interleavings are sampled, not enumerated; SDK crypto is trusted only to the extent that an independent codec interoperates with it.",
  ),
  "C03": dict(
@@ -53,12 +53,12 @@ TEXT = {
  ),
  "C17": dict(
   technique="model-based property testing (rapid) against an interval ledger under a fake clock, plus generated concurrent workloads under the real clock with interval-arithmetic bounds",
-  level_text="Generated open/auth/close/add/remove/advance/scrape histories drive the real Prometheus collector under a synctest fake clock and every scrape is compared with a ledger of per-(IP,key) open intervals; because a fake clock cannot move between two statements, generated concurrent workloads (workers x scrapers x client pools x database latency) additionally run under the real clock, where the process must survive, counters must be monotone and the final totals must lie inside bounds derived from the workers' own timestamps.",
+  level_text="Generated open/auth/close/add/remove/advance/scrape histories drive the real Prometheus collector under a synctest fake clock and every scrape is compared with a ledger of per-(IP,key) open intervals; because a fake clock cannot move between two statements, generated concurrent workloads (workers x scrapers x client pools x database latency) additionally run under the real clock, where the process must survive, counters must be monotone and the final totals must lie inside bounds derived from the workers' own timestamps. A third engine puts the real StreamHandler (with replay history) in front of the real collector under the fake clock: generated successive valid, random, replayed and reflected connections held open for generated times.",
   level_note="Concurrent schedules are sampled; the fake-time engine uses Go 1.26 timer semantics.",
  ),
  "C12": dict(
   technique="stateful property-based testing (rapid) with history invariants over real sockets, each case repeated to sample schedules",
-  level_text="Generated acquire/close/pending-call/send/settle sequences on one shared address through the real ListenerManager (TCP and UDP sockets); invariants over the recorded history decide exactly-once delivery, nothing delivered to a handle closed before the call started, ErrClosed for pending and later calls, socket release, absence of leftover goroutines and closing of orphaned connections.",
+  level_text="Generated acquire/close/pending-call/send/settle sequences on one shared address through the real ListenerManager (TCP and UDP sockets); invariants over the recorded history decide exactly-once delivery, nothing delivered to a handle closed before the call started, ErrClosed for pending and later calls, socket release, absence of leftover goroutines and closing of orphaned connections. A fault-injection unit makes the shared accept fail for real (EMFILE, by lowering RLIMIT_NOFILE in a process of its own) while generated numbers of connections wait in the backlog, and checks delivery after the fault and that no handle was closed by it.",
   level_note="The Go scheduler is not controlled: racing deliveries are sampled by running every case four times; absence of other interleavings is not established.",
  ),
  "C13": dict(
@@ -88,7 +88,7 @@ TEXT = {
  ),
  "C15": dict(
   technique="property-based testing (rapid): generated concurrent connection outcomes; recorded metric call sequences and the real collector vs. byte counts measured on the sockets",
-  level_text="Generated mixes of connection outcomes (completed relays, probes, replays, reflected salts, bad addresses, connect failures, resets on either side, corrupt chunks) run concurrently through the real TCP service; for each connection the recorded TCPConnMetrics call sequence and the four byte counters are compared with what the raw client and target sockets measured, and the real Prometheus collector's counters with the call log.",
+  level_text="Generated mixes of connection outcomes (completed relays, probes, replays, reflected salts, bad addresses, connect failures, resets on either side, corrupt chunks) run concurrently through the real TCP service; for each connection the recorded TCPConnMetrics call sequence and the four byte counters are compared with what the raw client and target sockets measured, and the real Prometheus collector's counters with the call log. A further generated dimension drives the real StreamHandler on an in-memory client conn with generated read sizes and with the last bytes delivered together with io.EOF.",
   level_note="Authentication expectations come from the scenario construction with an independent codec; reset outcomes admit a set of statuses.",
  ),
  "C18": dict(
